@@ -350,7 +350,7 @@ impl Check for C12 {
     }
     fn plan(&self, tier: Tier) -> Plan {
         unsafe { std::env::set_var("VERIF_TIER_INTERNAL", tier.name()) };
-        Plan { cases: tier.pick(700, 6000), max_recs: tier.pick(40, 70), max_shrink_iters: 400, workers: 16 }
+        Plan { cases: tier.pick(700, 12_000), max_recs: tier.pick(40, 70), max_shrink_iters: 400, workers: 16 }
     }
     fn run(&self, tape: &Tape, want_sample: bool) -> Result<CaseOut, Failure> {
         let (st, tr, r) = run_case(tape, tier_of_env(), want_sample);
